@@ -90,4 +90,17 @@ def Node.commit (n : Node) : Node :=
 def Node.crash (n : Node) : Node :=
   { committed := n.committed, working := n.committed, check := n.committed }
 
+/-- one block as CometBFT delivers it: header time, transactions, the governance messages whose voting
+period ends in it -/
+structure Block where
+  time : Int
+  txs : List Tx
+  govs : List Msg := []
+
+/-- BeginBlock, every DeliverTx, EndBlock, Commit -/
+def Node.runBlock (n : Node) (wall : Nat) (b : Block) : M Node := do
+  let n1 ← n.begin b.time
+  let n2 := b.txs.foldl (fun (n : Node) tx => (n.deliver wall tx).1) n1
+  pure (n2.endBlock wall b.govs).1.commit
+
 end Mainchain
